@@ -1,7 +1,7 @@
 (* Model/XCheck.v (codec) - comparison functions for the correspondence shards of dubbo / dubbo-thrift / tars.
    The opaque body parsers are given per case as finite tables computed by the harness with the real libraries. *)
 From Coq Require Import List NArith Bool.
-From MV Require Import Lib.Bytes Lib.Dec Lib.Seg Gen.ProtoConsts Gen.CodecSrc Model.Xcodecs Model.BoltCheck.
+From MV Require Import Lib.Bytes Lib.Dec Lib.Seg Model.CodecParams Model.Xcodecs Model.BoltCheck.
 Import ListNotations.
 Open Scope N_scope.
 
